@@ -62,6 +62,92 @@ theorem foldSV_project (rs : List Rec) (v v' : SV) (b : Bytes) (c : Bool) (h : v
       rw [stepSV_frame v r c b (fun e => hb e.symm)]
       exact h
 
+/-! ### one bucket's structures as folds of the appliers over the bucket's own records -/
+
+theorem foldSV_lists (rs : List Rec) (v : SV) (b : Bytes) (c : Bool) (hb : ∀ r ∈ rs, r.bucket = b) :
+    (aget? (foldSV v rs c).lists b).getD [] =
+      (rs.filter fun r => r.ds == dsList).foldl (fun l r => (applyList l r).1) ((aget? v.lists b).getD []) := by
+  induction rs generalizing v with
+  | nil => rfl
+  | cons r rest ih =>
+    have hrb : r.bucket = b := hb r (List.mem_cons_self ..)
+    simp only [foldSV, List.foldl_cons]
+    have := ih (stepSV v r c).1 (fun x hx => hb x (List.mem_cons_of_mem _ hx))
+    simp only [foldSV] at this
+    rw [this]
+    by_cases hds : (r.ds == dsList) = true
+    · have h1 : (r.ds == dsSet) = false := by
+        have : r.ds = dsList := by simpa using hds
+        rw [this]; decide
+      have h2 : (r.ds == dsZSet) = false := by
+        have : r.ds = dsList := by simpa using hds
+        rw [this]; decide
+      have hstep : (aget? (stepSV v r c).1.lists b).getD [] = (applyList ((aget? v.lists b).getD []) r).1 := by
+        simp only [stepSV, h1, h2, hds, if_true, Bool.false_eq_true, if_false, hrb, aget_aput_self, Option.getD_some]
+      rw [hstep, List.filter_cons, if_pos hds, List.foldl_cons]
+    · have hf : (r.ds == dsList) = false := by simpa using hds
+      rw [List.filter_cons, hf]
+      simp only [Bool.false_eq_true, if_false]
+      have hl : (stepSV v r c).1.lists = v.lists := by
+        simp only [stepSV, hf, Bool.false_eq_true, if_false]
+        split
+        · rfl
+        · split <;> rfl
+      rw [hl]
+
+theorem foldSV_zsets (rs : List Rec) (v : SV) (b : Bytes) (c : Bool) (hb : ∀ r ∈ rs, r.bucket = b) :
+    (aget? (foldSV v rs c).zsets b).getD [] =
+      (rs.filter fun r => r.ds == dsZSet).foldl (fun z r => (applyZSet z r c).1) ((aget? v.zsets b).getD []) := by
+  induction rs generalizing v with
+  | nil => rfl
+  | cons r rest ih =>
+    have hrb : r.bucket = b := hb r (List.mem_cons_self ..)
+    simp only [foldSV, List.foldl_cons]
+    have := ih (stepSV v r c).1 (fun x hx => hb x (List.mem_cons_of_mem _ hx))
+    simp only [foldSV] at this
+    rw [this]
+    by_cases hds : (r.ds == dsZSet) = true
+    · have h1 : (r.ds == dsSet) = false := by
+        have : r.ds = dsZSet := by simpa using hds
+        rw [this]; decide
+      have hstep : (aget? (stepSV v r c).1.zsets b).getD [] = (applyZSet ((aget? v.zsets b).getD []) r c).1 := by
+        simp only [stepSV, h1, hds, if_true, Bool.false_eq_true, if_false, hrb, aget_aput_self, Option.getD_some]
+      rw [hstep, List.filter_cons, if_pos hds, List.foldl_cons]
+    · have hf : (r.ds == dsZSet) = false := by simpa using hds
+      rw [List.filter_cons, hf]
+      simp only [Bool.false_eq_true, if_false]
+      have hl : (stepSV v r c).1.zsets = v.zsets := by
+        simp only [stepSV, hf, Bool.false_eq_true, if_false]
+        split
+        · rfl
+        · split <;> rfl
+      rw [hl]
+
+/-- the structures of bucket `b` after every history: the appliers folded over the records of the log that name
+`b`, per structure, starting from nothing -/
+theorem structures_of_own_records (s : State) (h : AllInv s) (b : Bytes) :
+    (aget? s.lists b).getD [] =
+      ((((allRecs s.files).map (·.1)).filter fun r => r.bucket == b).filter fun r => r.ds == dsList).foldl
+        (fun l r => (applyList l r).1) [] ∧
+    (aget? s.zsets b).getD [] =
+      ((((allRecs s.files).map (·.1)).filter fun r => r.bucket == b).filter fun r => r.ds == dsZSet).foldl
+        (fun z r => (applyZSet z r false).1) [] := by
+  have hproj := foldSV_project ((allRecs s.files).map (·.1)) emptySV emptySV b false rfl
+  rw [← h.structs] at hproj
+  have hown : ∀ r ∈ ((allRecs s.files).map (·.1)).filter (fun r => r.bucket == b), r.bucket = b := by
+    intro r hr
+    have := (List.mem_filter.mp hr).2
+    simpa using this
+  constructor
+  · have hl : aget? s.lists b = aget? (foldSV emptySV (((allRecs s.files).map (·.1)).filter fun r => r.bucket == b) false).lists b :=
+      congrArg (·.1) hproj
+    rw [hl, foldSV_lists _ emptySV b false hown]
+    rfl
+  · have hz : aget? s.zsets b = aget? (foldSV emptySV (((allRecs s.files).map (·.1)).filter fun r => r.bucket == b) false).zsets b :=
+      congrArg (·.2.2) hproj
+    rw [hz, foldSV_zsets _ emptySV b false hown]
+    rfl
+
 /-! ### key/value -/
 
 theorem kvPut_frame (kv : Assoc (Assoc Idx)) (r : Rec) (fid pos : Nat) (b : Bytes) (h : b ≠ r.bucket) :
